@@ -40,7 +40,7 @@ LIST2 = {'leaf_kinds': ['int', 'bool', 'float', 'str'], 'key_kinds': ['str'], 's
 def families(tier):
     if tier == 'quick':
         return [
-            {'name': 'single', 'params': {'depth': 1, 'width': 2, 'bad': True, 'shape': FULL}, 'weight': 1},
+            {'name': 'single', 'params': {'depth': 1, 'width': 2, 'bad': True, 'shape': FULL}, 'weight': 4},
             {'name': 'single', 'params': {'depth': 2, 'width': 1, 'bad': True, 'shape': MID}, 'weight': 1},
             {'name': 'pair', 'params': {'depth': 0, 'width': 0, 'shape': FULL}, 'weight': 1},
             {'name': 'pair', 'params': {'depth': 1, 'width': 1, 'shape': MID}, 'weight': 3},
